@@ -40,6 +40,15 @@ let () =
        | Some (h, h1) -> hex_of_n h ^ " " ^ hex_of_n h1
        | None -> "PANIC")
     | _ -> "ERR args");
+  register "refhet" (fun a -> match a with
+    | [bits; name] ->
+      (match het_hash_ref (bytes_of_hex name) (n_of_hex bits) with
+       | Some (h, h1) -> hex_of_n h ^ " " ^ hex_of_n h1
+       | None -> "PANIC")
+    | _ -> "ERR args");
+  register "refoaat" (fun a -> match a with
+    | [name] -> hex_of_n (ref_oaat (bytes_of_hex name))
+    | _ -> "ERR args");
   register "hl2" (fun a -> match a with
     | [pc; pb; key] ->
       let (c, b) = hashlittle2 (bytes_of_hex key) (n_of_hex pc) (n_of_hex pb) in
